@@ -12,10 +12,10 @@ import (
 
 type intrinsic func(fr *frame, args []value) value
 
-var zzAPI map[string]intrinsic
+var zzAPI = map[string]intrinsic{}
 
 func init() {
-	zzAPI = map[string]intrinsic{
+	base := map[string]intrinsic{
 		"Int":         zzInt,
 		"IntRange":    zzIntRange,
 		"Bool":        zzBool,
@@ -57,6 +57,9 @@ func init() {
 		"Symbolic":    func(fr *frame, args []value) value { return true },
 		"Concretize":  zzConcretize,
 		"ConcretizeStr": zzConcretizeStr,
+	}
+	for k, v := range base {
+		zzAPI[k] = v
 	}
 }
 
